@@ -124,6 +124,20 @@ CLAIMED = {
             NOTE + "; rdflib is exercised, not verified; two sub-spaces that PROV-O cannot distinguish are filtered and "
             "counted (R0: identified alternate/specialization/membership, R8b: plain + qualified association to the same "
             "agent), see DESIGN.md"),
+    "C11": ("(a) Specification-driven generation: the reference documents of the shape sweep are written by foreign "
+            "PROV-JSON / PROV-XML writers (provmc/indep, not the library's) in every dialect with <= 1 (thorough 2) "
+            "deviations from the base spelling (wrapped values / formal arguments / records, multi-entity membership, "
+            "every literal spelling, prefix blocks on document and/or bundle, key order, default namespace; XML: subtype "
+            "elements, xsi:type on records, redundant string types, nested declarations, other xsd prefix, comments, "
+            "prov:other ...), each deviation everywhere and at its first/last site.  (b) Every single-point mutant of the "
+            "398 JSON + 44 XML corpus files under the five operators of the quantifier.  Every text is loaded: a library "
+            "error, or a document that is stable under re-serialisation in the same and the other format and equals the "
+            "reference document / the independent reader's reading of the text.",
+            TECH.replace("breadth-first exploration of public-API call histories with canonical-state de-duplication",
+                         "enumeration of input texts (dialect deviations bounded by count, all single-point corpus "
+                         "mutants)") + "; independent writers/readers as oracle",
+            NOTE + "; the foreign writers and independent readers are trusted and self-checked (each generated text is "
+            "read back by the independent reader before it is used)"),
 }
 
 NA = {}
